@@ -186,8 +186,58 @@ def parse_design(ans, car):
 
 
 class _Contour:
-    def __init__(self, coords):
-        self.coordinates = np.array(coords, dtype=float).reshape(-1, 2)
+    """duck-typed stand-in: only the attribute `coordinates` (float64 unless a dtype is given)"""
+
+    def __init__(self, coords, dtype=float):
+        self.coordinates = np.array(coords, dtype=dtype).reshape(-1, 2)
+
+
+# genuine contour objects built by `real_contours` in this process: key -> IFORMContour / ISORMContour / ...
+# (a replay in another process has no such object and rebuilds a `virocon.contours.Contour` subclass instance
+# with the same coordinates)
+_OBJ = {}
+_GIVEN = []
+
+
+def _given_contour(arr):
+    """a real `virocon.contours.Contour` (subclass instance) whose `_compute` sets the given coordinates"""
+    if not _GIVEN:
+        from virocon.contours import Contour
+
+        class GivenContour(Contour):
+            def __init__(self, coordinates):
+                self.model = None
+                self.alpha = None
+                self._given = coordinates
+                super().__init__()
+
+            def _compute(self):
+                self.coordinates = self._given
+
+        _GIVEN.append(GivenContour)
+    return _GIVEN[0](arr)
+
+
+def contour_object(coords, contour="stub", cdtype="float", objkey=None):
+    """the object handed to calculate_design_conditions: `stub` (duck-typed), `real` (Contour subclass instance),
+    `genuine` (the IFORM/ISORM/direct-sampling contour object itself); cdtype int64/int32: integral coordinates
+    stored in an integer array"""
+    arr = np.array(coords, dtype=float).reshape(-1, 2)
+    if cdtype in ("int64", "int32"):
+        ia = arr.astype(cdtype)
+        if not np.array_equal(ia.astype(float), arr):
+            raise core.MachineryError("C17 harness: integer coordinate dtype requested for non-integral coordinates")
+        arr = ia
+    if contour == "genuine":
+        obj = _OBJ.get(objkey)
+        if obj is not None:
+            oc = np.asarray(obj.coordinates)
+            if oc.shape == arr.shape and oc.dtype == arr.dtype and np.array_equal(oc, arr):
+                return obj, "genuine"
+        contour = "real"
+    if contour == "real":
+        return _given_contour(arr), "real"
+    return _Contour(arr, dtype=arr.dtype), "stub"
 
 
 def impl_inter(case):
@@ -209,6 +259,9 @@ def _steps_arg(spec):
     if spec[0] == "D":
         return None
     if spec[0] == "N":
+        form = spec[2] if len(spec) > 2 else "int"
+        if form in ("int64", "int32", "intp", "uint8"):   # numpy integer scalars: numbers, not iterable
+            return getattr(np, form)(int(spec[1]))
         return int(spec[1])
     form = spec[2] if len(spec) > 2 else "list"
     if form == "intlist":  # whole-number abscissae as Python ints
@@ -219,33 +272,66 @@ def _steps_arg(spec):
         return tuple(int(v) for v in spec[1])
     if form == "arr":
         return np.array(spec[1], dtype=float)
+    if form == "tuple":
+        return tuple(float(v) for v in spec[1])
     return [float(v) for v in spec[1]]
 
 
-def impl_design(coords, spec, swap, reuse=False):
+CALLS = ("pos_kw", "pos", "kw", "defaults")
+
+
+def call_design(f, contour, spec, swap, call="pos_kw"):
+    """the calling conventions of calculate_design_conditions(contour, steps=None, swap_axis=False)"""
+    steps = _steps_arg(spec)
+    swap = bool(swap)
+    if call == "pos":
+        return f(contour, steps, swap)
+    if call == "kw":
+        return f(swap_axis=swap, steps=steps, contour=contour)
+    if call == "defaults":   # rely on the documented defaults steps=None, swap_axis=False wherever they apply
+        kw = {}
+        if spec[0] != "D":
+            kw["steps"] = steps
+        if swap:
+            kw["swap_axis"] = True
+        return f(contour, **kw)
+    return f(contour, steps, swap_axis=swap)
+
+
+def impl_design(coords, spec, swap, reuse=False, call="pos_kw", contour="stub", cdtype="float", objkey=None):
     from virocon.utils import calculate_design_conditions
 
+    cobj, used = contour_object(coords, contour, cdtype, objkey)   # harness-side: errors here are machinery errors
     try:
         with warnings.catch_warnings():
             warnings.simplefilter("ignore")
-            contour = _Contour(coords)
             if reuse:
                 # history: the same contour object has already been asked for design conditions, with the other
                 # and with the same swap_axis; the evaluated call must behave as on a fresh contour
                 for sw in (not swap, swap):
                     try:
-                        calculate_design_conditions(contour, _steps_arg(spec), swap_axis=sw)
+                        calculate_design_conditions(cobj, _steps_arg(spec), swap_axis=sw)
                     except Exception:  # noqa: BLE001
                         pass
-            dc = calculate_design_conditions(contour, _steps_arg(spec), swap_axis=swap)
+            dc = call_design(calculate_design_conditions, cobj, spec, swap, call)
     except Exception as e:  # noqa: BLE001
-        return {"err": type(e).__name__, "msg": str(e)[:200]}
-    dc = np.asarray(dc, dtype=float)
+        return {"err": type(e).__name__, "msg": str(e)[:200], "contour_used": used}
+    try:
+        raw = np.asarray(dc)
+        shape = tuple(int(v) for v in raw.shape)
+        kind = raw.dtype.kind
+        dc = np.asarray(dc, dtype=float)
+    except Exception as e:  # noqa: BLE001
+        return {"err": "result_not_numeric", "msg": f"{type(e).__name__}: {e}"[:200], "contour_used": used}
     if dc.size == 0:
-        return {"res": []}
+        return {"res": [], "shape": shape, "contour_used": used}
     if dc.ndim != 2 or dc.shape[1] != 2:
-        return {"err": "shape", "msg": str(dc.shape)}
-    return {"res": [(float(a), float(b)) for a, b in dc]}
+        return {"err": "shape", "msg": str(dc.shape), "contour_used": used}
+    return {"res": [(float(a), float(b)) for a, b in dc], "shape": shape, "dtype_kind": kind, "contour_used": used}
+
+
+def design_opts(case):
+    return {k: case[k] for k in ("call", "contour", "cdtype", "objkey") if k in case}
 
 
 # --------------------------------------------------------------------------------------
@@ -504,6 +590,9 @@ def compare_design(coords, spec, swap, impl, mF, mQ):
         return f"model error {mF.get('err')} but implementation returned"
     if "err" in impl:
         return f"implementation raised {impl['err']}: {impl.get('msg')}"
+    if not impl["res"] and tuple(impl.get("shape", (0, 2))) != (0, 2):
+        return (f"empty result has shape {tuple(impl['shape'])}; the model's empty list of (abscissa, ordinate) rows "
+                f"corresponds to an array of shape (0, 2)")
     steps = mF["steps"]
     if [f2b(v) for v in steps] != [f2b(v) for v in mQ["steps"]]:
         return "model: steps differ between carriers"
@@ -777,10 +866,20 @@ def random_model(rng):
     return GlobalHierarchicalModel([d0, d1])
 
 
-def real_contours(rng, n_models, thorough):
-    """IFORM / ISORM / direct-sampling contours of random 2-D models (and of predefined ones)"""
+REAL_KINDS = ("IFORM", "ISORM", "DS")
+
+
+def real_contours(rng, n_models, thorough, ck=None):
+    """IFORM / ISORM / direct-sampling contours of random 2-D models (and of predefined ones); returns
+    (name, coords, objkey) with the contour object itself registered in `_OBJ[objkey]`. Construction failures are
+    counted (and a floor is enforced by `coverage_floor`): a contour kind that can no longer be built must not
+    silently disappear from the check."""
     from virocon import IFORMContour, ISORMContour, DirectSamplingContour
     from virocon import predefined
+
+    def note(key):
+        if ck is not None:
+            ck.count(key)
 
     out = []
     models = []
@@ -791,11 +890,13 @@ def real_contours(rng, n_models, thorough):
             from virocon import GlobalHierarchicalModel
             dd, fd, sem = getattr(predefined, getter)()
             models.append((getter, GlobalHierarchicalModel(dd)))
-        except Exception:  # noqa: BLE001  (predefined models are not the object of this check)
-            pass
+            note("contour_model=predefined")
+        except Exception as e:  # noqa: BLE001  (predefined models are not the object of this check)
+            note("contour_model_failed=" + getter + ":" + type(e).__name__)
     for name, model in models:
         alpha = float(10 ** rng.uniform(-5, -1.3))
-        for method in ("IFORM", "ISORM", "DS"):
+        for method in REAL_KINDS:
+            note("contour_attempted=" + method)
             try:
                 with warnings.catch_warnings():
                     warnings.simplefilter("ignore")
@@ -809,13 +910,35 @@ def real_contours(rng, n_models, thorough):
                         c = DirectSamplingContour(model, max(alpha, 20.0 / n), deg_step=float(rng.choice([5, 10, 20, 45])),
                                                   sample=sample)
                 coords = np.asarray(c.coordinates, dtype=float)
-            except Exception:  # noqa: BLE001
+            except Exception as e:  # noqa: BLE001
+                note("contour_failed=" + method + ":" + type(e).__name__)
                 continue
             # (direct-sampling contours with far-away closing vertices are C03's subject, not used here)
             if (coords.ndim == 2 and coords.shape[1] == 2 and len(coords) >= 3 and np.all(np.isfinite(coords))
                     and np.abs(coords).max() < 1e4):
-                out.append((method + ":" + name, coords))
+                key = f"{method}:{name}:{len(_OBJ)}"
+                _OBJ[key] = c
+                out.append((method + ":" + name, coords, key))
+            else:
+                note("contour_unusable=" + method)
     return out
+
+
+def coverage_floor(ck):
+    """every real contour kind of the quantifier (IFORM, ISORM, direct sampling) must have been built and used, and
+    at least half of the attempted constructions must have succeeded; otherwise the run says nothing about them"""
+    problems = []
+    for kind in REAL_KINDS:
+        built, tried = ck.dist.get("contour=" + kind, 0), ck.dist.get("contour_attempted=" + kind, 0)
+        used = ck.dist.get("design:gen=" + kind, 0)
+        if built == 0 or used == 0 or 2 * built < tried:
+            why = sorted(k for k in ck.dist if k.startswith(("contour_failed=" + kind, "contour_unusable=" + kind)))
+            problems.append(f"{kind}: {built} of {tried} contours built, {used} design cases ({', '.join(why) or 'no failure recorded'})")
+    if ck.dist.get("design:contour_object=genuine", 0) == 0:
+        problems.append("no design case was run on a genuine contour object")
+    if ck.dist.get("contour_model=predefined", 0) == 0:
+        problems.append("no predefined model could be built")
+    return problems
 
 
 def star_polygon(rng):
@@ -871,6 +994,10 @@ def step_specs(rng, coords, swap, lattice=False):
     lo, hi = float(xs.min()), float(xs.max())
     span = hi - lo
     specs = [("D",), ("N", int(rng.choice([0, 1, 2, 3, 5, 7, 20, 33])))]
+    # the count as a numpy integer scalar (a number that is not a Python int)
+    specs.append(("N", int(rng.choice([0, 1, 2, 4, 6, 10, 17])), str(rng.choice(["int64", "int32", "intp", "uint8"]))))
+    # no abscissa requested at all
+    specs.append(("L", [], str(rng.choice(["list", "arr", "tuple"]))))
     inside = np.sort(rng.uniform(lo, hi, int(rng.integers(1, 6)))).tolist()
     specs.append(("L", inside))
     mixed = [lo - 0.3 * span - 1e-3, float(rng.uniform(lo, hi)), hi + 0.2 * span + 1e-3, float(rng.uniform(lo, hi)),
@@ -891,7 +1018,7 @@ def step_specs(rng, coords, swap, lattice=False):
         whole = [float(v) for v in sorted(rng.choice(whole, size=12, replace=False))]
     if whole:
         specs.append(("L", whole, str(rng.choice(["intlist", "intarr", "inttuple"]))))
-    specs.append(("L", inside, "arr"))
+    specs.append(("L", inside, str(rng.choice(["arr", "tuple"]))))
     return specs
 
 
@@ -937,7 +1064,7 @@ def process_design(ck, cases):
     """cases: dict(kind=design, gen, coords, spec, swap)"""
     lines, impls = [], []
     for case in cases:
-        impls.append(impl_design(case["coords"], case["spec"], case["swap"], case.get("reuse", False)))
+        impls.append(impl_design(case["coords"], case["spec"], case["swap"], case.get("reuse", False), **design_opts(case)))
         lines += design_lines(case["coords"], case["spec"], case["swap"])
     ans = ck.driver.run(lines) if lines else []
     for n, case in enumerate(cases):
@@ -950,7 +1077,21 @@ def process_design(ck, cases):
         ck.case(case, nontrivial=(len(coords) >= 3 and ncross >= 1))
         ck.count("design:gen=" + case["gen"].split(":")[0])
         ck.count("design:steps=" + spec[0] + (":" + spec[2] if len(spec) > 2 else ""))
+        if spec[0] == "L" and len(spec[1]) == 0:
+            ck.count("design:steps=empty_list")
+        if spec[0] == "N" and int(spec[1]) <= 1:
+            ck.count("design:steps=count_" + str(int(spec[1])))
         ck.count("design:swap=" + str(bool(swap)))
+        ck.count("design:call=" + case.get("call", "pos_kw"))
+        if case.get("call") == "defaults":
+            if not swap:
+                ck.count("design:default_swap_axis_relied_on")
+            if spec[0] == "D":
+                ck.count("design:default_steps_relied_on")
+        ck.count("design:contour_object=" + impl.get("contour_used", "stub"))
+        ck.count("design:coords_dtype=" + case.get("cdtype", "float"))
+        if "res" in impl and not impl["res"]:
+            ck.count("design:empty_result_shape=" + "x".join(str(v) for v in impl.get("shape", ())))
         if case.get("reuse"):
             ck.count("design:contour_object_used_before")
         ck.count("design:max_crossings=" + (str(ncross) if ncross < 5 else "5+"))
@@ -1006,12 +1147,25 @@ def corpus_cases():
 
 
 def design_case_list(rng, polys, lattice=False):
+    """polys: (name, coords) or (name, coords, objkey) - the latter for genuine contour objects in `_OBJ`"""
     cases = []
-    for name, coords in polys:
+    for item in polys:
+        name, coords = item[0], item[1]
+        objkey = item[2] if len(item) > 2 else None
+        c = np.asarray(coords, dtype=float)
+        integral = bool(np.all(c == np.floor(c))) and float(np.abs(c).max()) < 2 ** 30
         for swap in (False, True):
             for spec in step_specs(rng, coords, swap, lattice=lattice):
-                cases.append({"kind": "design", "gen": name, "coords": np.asarray(coords).tolist(), "spec": spec, "swap": swap,
-                              "reuse": len(cases) % 3 == 1})
+                k = len(cases)
+                case = {"kind": "design", "gen": name, "coords": c.tolist(), "spec": spec, "swap": swap,
+                        "reuse": k % 3 == 1, "call": CALLS[int(rng.integers(0, len(CALLS)))]}
+                if objkey is not None:
+                    case["contour"], case["objkey"] = "genuine", objkey
+                else:
+                    case["contour"] = ("stub", "real")[(k // 5) % 2]
+                if integral and objkey is None and k % 2 == 0:
+                    case["cdtype"] = "int64" if k % 4 == 0 else "int32"
+                cases.append(case)
     return cases
 
 
@@ -1036,9 +1190,9 @@ def run_generated(ck, rng, n_pairs, n_poly, n_models, thorough):
     process_design(ck, design_case_list(rng, polys))
     lat = [("lattice", lattice_polygon(rng)) for _ in range(n_poly)]
     process_design(ck, design_case_list(rng, lat, lattice=True))
-    conts = real_contours(rng, n_models, thorough)
-    for name, _ in conts:
-        ck.count("contour=" + name.split(":")[0])
+    conts = real_contours(rng, n_models, thorough, ck)
+    for item in conts:
+        ck.count("contour=" + item[0].split(":")[0])
     process_design(ck, design_case_list(rng, conts))
 
 
@@ -1090,6 +1244,11 @@ def main(ck):
                 ck.hyp_checked += r["hyp"]
                 ck.driver.n_lines += r["lines"]
     ck.extra["exhaustive"] = False
+    floor = coverage_floor(ck)
+    if floor and not ck.failures and not ck.divergences:
+        # (with a violation at hand the violation is reported; otherwise a run that could not build the real contours
+        # of the quantifier must not exit 0)
+        raise core.MachineryError("C17 coverage floor: " + "; ".join(floor))
 
 
 def replay(ck, payload):
@@ -1109,7 +1268,7 @@ def replay(ck, payload):
         print("implementation:", impl)
     else:
         coords, spec, swap = case["coords"], tuple(case["spec"]), case["swap"]
-        impl = impl_design(coords, spec, swap, case.get("reuse", False))
+        impl = impl_design(coords, spec, swap, case.get("reuse", False), **design_opts(case))
         mF = mQ = None
         steps = []
         if ck.driver:
